@@ -854,6 +854,7 @@ where
     /// resulting vector. The purpose of this method is to enable uniformly
     /// configured Search calls on the connections newly opened in an adapter.
     pub async fn adapter_chain_tail(&mut self) -> Vec<Box<dyn Adapter<'a, S, A> + 'a>> {
+        self.resync_chain();
         let mut chain = vec![];
         for ix in self.ax..self.adapters.len() {
             let adapter = self.adapters[ix].clone();
